@@ -103,6 +103,9 @@ func forTableShapes(r *ev.Run, b shapeBounds, fn func(si *ShapeImage)) {
 			r.Harness("dbgen table shape %s n=%d: %v", j.tree, j.n, err)
 			return
 		}
+		if !replayMatches(map[string]interface{}{"family": "table-shape", "page_size": b.PageSize, "n": j.n, "tree": j.tree.String(), "rowids": fmt.Sprint(rowidSet(j.n, j.rv)), "layout": fmt.Sprintf("%+v", layoutVariants[j.lv]), "big": j.big}) {
+			return
+		}
 		if !r.StateBytes(img.Bytes) {
 			return
 		}
@@ -177,6 +180,9 @@ func forIndexShapes(r *ev.Run, b shapeBounds, fn func(si *ShapeImage)) {
 		img, err := dbgen.Build(spec)
 		if err != nil {
 			r.Harness("dbgen index shape %s %s n=%d: %v", j.object, j.tree, j.n, err)
+			return
+		}
+		if !replayMatches(map[string]interface{}{"family": "index-shape", "object": j.object, "page_size": b.PageSize, "n": j.n, "tree": j.tree.String(), "layout": fmt.Sprintf("%+v", layoutVariants[j.lv]), "big": j.big}) {
 			return
 		}
 		if !r.StateBytes(img.Bytes) {
